@@ -4,7 +4,7 @@
    (wf_rename, wf_rewrite); examples that
    satisfy them, and witnesses of what fails without them, are in Proofs/WitnessP.v. *)
 From LC Require Import Lib.Bytes Lib.Fields Lib.PathM Model.FsTree Model.Kernel Model.Layers
-  Cases.LC Cases.C11 Proofs.LayerFileP Proofs.C11P Proofs.C11cP Proofs.C11rP.
+  Cases.LC Cases.C11 Proofs.LayerFileP Proofs.C11P Proofs.C11cP Proofs.C11rP Proofs.C11sP.
 Import LC.
 
 (* (a) read (write cfg) = cfg: same base, imports, exports, same order, no error *)
@@ -44,6 +44,23 @@ Theorem C11_no_partial_config_partial : forall cfg w e cmd um,
   conj1 cfg w (view_of_model cfg w e cmd um) = true.
 Proof. exact crash_atomic_gen. Qed.
 Print Assumptions C11_no_partial_config_partial.
+
+(* (b) crash after crash: the same from worlds that hold stale layerconfig.tmp files left by
+   earlier crashes.  wf_world2 (Proofs/C11sP.v) = clean absolute configuration && no regular
+   file's path ends in a slash && lc_regular && cmd_ok && unique paths && tmp_ok (nothing
+   strictly below the temporary file names the command uses; for rename the new name is free
+   on disk) *)
+Theorem C11_crash_atomic_stale_partial : forall cfg w e cmd um k,
+  e_fault e = CrashAt k -> e_pretend e = false -> wf_world2 cfg (wo_fs w) cmd = true ->
+  conj1 cfg w (view_of_model cfg w e cmd um) = true.
+Proof. exact crash_atomic_stale_crash. Qed.
+Print Assumptions C11_crash_atomic_stale_partial.
+
+Theorem C11_no_partial_config_stale_partial : forall cfg w e cmd um,
+  e_pretend e = false -> wf_world2 cfg (wo_fs w) cmd = true ->
+  conj1 cfg w (view_of_model cfg w e cmd um) = true.
+Proof. exact crash_atomic_stale. Qed.
+Print Assumptions C11_no_partial_config_stale_partial.
 
 (* (c) a successful rebase keeps base / imports / exports of every layer that loaded, up to
    the new base of the rebased layer *)
